@@ -1,7 +1,8 @@
 ---------------------------- MODULE OdInfoScripts ----------------------------
 (* X03 - what TLC enumerates for the replay on the real code:
      DictSpec   object dictionaries: every sequence of 0..MaxObjs shapes out of Shapes,
-                plus the long lists BigDict(n), n \in BigNs
+                the long lists BigDict(n), n \in BigNs, and the sequences of shapes in Wanted
+                (dictionaries for dedicated sessions; defined by the root module the check writes)
      SplitSpec  every legal fragmentation (sequence of data sizes) of a response whose service
                 data has `total` bytes, the first `fixed` of which must travel in the first
                 fragment, when a fragment carries at most `cap` bytes - for all triples in Triples
@@ -9,16 +10,17 @@
                 at once, after polls, after / between unrelated mail, refuse in three ways);
                 at most one refusal per script                                               *)
 EXTENDS OdInfoDicts, Json
-CONSTANTS MaxObjs, Shapes, BigNs, Triples, MaxLen, Kinds, Refusals
+CONSTANTS MaxObjs, Shapes, BigNs, Wanted, Triples, MaxLen, Kinds, Refusals
 VARIABLES hist, par
 
-DInit == hist = <<>> /\ par \in {0} \cup BigNs
+DInit == \/ hist = <<>> /\ par \in {0} \cup BigNs
+         \/ hist \in Wanted /\ par = -1
 DNext == /\ par = 0 /\ Len(hist) < MaxObjs
          /\ \E s \in Shapes : hist' = Append(hist, s)
          /\ UNCHANGED par
 DictSpec == DInit /\ [][DNext]_<<hist, par>>
-EmitDict == IF par = 0 THEN PrintT(<<"DICT", ToJson(hist), ToJson(MkDict(hist))>>)
-            ELSE PrintT(<<"DICT", ToJson(<<"big", par>>), ToJson(BigDict(par))>>)
+EmitDict == IF par <= 0 THEN PrintT(<<"DICT", par, ToJson(hist), ToJson(MkDict(hist))>>)
+            ELSE PrintT(<<"DICT", par, ToJson(<<"biglist">>), ToJson(BigDict(par))>>)
 
 RECURSIVE Total(_)
 Total(s) == IF s = <<>> THEN 0 ELSE Head(s) + Total(Tail(s))
@@ -43,4 +45,13 @@ SNext == /\ Len(hist) < MaxLen
          /\ UNCHANGED par
 SlotSpec == SInit /\ [][SNext]_<<hist, par>>
 EmitSlots == Len(hist) = MaxLen => PrintT(<<"SLOTS", ToJson(hist)>>)
+
+(* all three in one run: par tells them apart (dictionaries <= 0 or a BigNs member < 1000,
+   splits >= 10000, reply scripts 5000)                                                     *)
+AInit == DInit \/ PInit \/ (hist = <<>> /\ par = 5000)
+ANext == \/ par < 1000 /\ DNext
+         \/ par >= 10000 /\ PNext
+         \/ par = 5000 /\ SNext
+AllSpec == AInit /\ [][ANext]_<<hist, par>>
+EmitAll == CASE par < 1000 -> EmitDict [] par >= 10000 -> EmitSplit [] OTHER -> EmitSlots
 =============================================================================
